@@ -168,6 +168,7 @@ def main():
             (zresults if 'queries' in r else results).append(r)
 
     violations, kf_hits, errors, inconclusive = [], [], [], []
+    reruns = []
     samples = []
     nrep = [0]
 
@@ -188,22 +189,20 @@ def main():
             mod = load_module(os.path.join(ROOT, r['module']))
             for k in known_open:
                 mfn = getattr(mod, k.get('match', ''), None)
-                if k.get('harness_fn') == r['fn'] and mfn is not None:
+                hf = k.get('harness_fn')
+                if (r['fn'] == hf or (isinstance(hf, list) and r['fn'] in hf)) and mfn is not None:
                     import base64, pickle
                     args = pickle.loads(base64.b64decode(rec['args_pickle'])) if rec.get('args_pickle') else eval(rec['args_repr'], {})
                     if mfn(**args):
                         kf_hits.append((k, rec))
                         os.unlink(path)
-                        # look for OTHER violations: re-run with this finding excluded
+                        # look for OTHER violations: re-run with this finding excluded (next round, in parallel)
                         if depth < 3:
                             c2 = {'module': r['module'], 'fn': r['fn'], 'shard': r.get('shard'),
                                   'timeout': r.get('timeout', 60),
                                   'params': dict(r.get('params') or {})}
                             c2['params']['exclude'] = sorted(set(c2['params'].get('exclude', []) + [k['match']]))
-                            r2 = run_condition(c2)
-                            r2['rerun_excluding'] = c2['params']['exclude']
-                            results.append(r2)
-                            process(r2, depth + 1)
+                            reruns.append((c2, depth + 1))
                         return
             violations.append({'replay': path, 'fn': r['fn'], 'shard': r.get('shard'),
                                'message': ck.get('message'), 'replay_detail': rp.get('detail'),
@@ -233,6 +232,15 @@ def main():
 
     for r in list(results):
         process(r)
+    while reruns:
+        batch, reruns[:] = list(reruns), []
+        with concurrent.futures.ThreadPoolExecutor(max_workers=a.jobs) as ex:
+            futs = [(ex.submit(run_condition, c2), d) for (c2, d) in batch]
+            for f, d in futs:
+                r2 = f.result()
+                r2['rerun_excluding'] = r2.get('params', {}).get('exclude')
+                results.append(r2)
+                process(r2, d)
 
     zq = 0
     zsolver = 0.0
